@@ -547,7 +547,12 @@ func (mgr *Manager) Close() {
 	close(mgr.updatedTagsDone)
 	c := make(chan struct{})
 	mgr.jobs <- func() {
+		// streams that were updated while a converter job is running may have been converted from the
+		// old index, the job won't get the chance to drop their output anymore
+		updatedStreams := mgr.updatedStreamsDuringConverterJob
+		mgr.updatedStreamsDuringConverterJob = bitmask.LongBitmask{}
 		for _, converter := range mgr.converters {
+			converter.InvalidateChangedStreams(&updatedStreams)
 			if err := converter.Close(); err != nil {
 				log.Printf("Failed to close converter %q: %v", converter.Name(), err)
 			}
